@@ -65,6 +65,18 @@ def long_line_docs(rng):
         docs.append(b"a " + b"\\" * (n - 2))                              # no newline at EOF
         docs.append(b" " * n + b"a 1\n")
         docs.append(b"a '" + b"\\'" * ((n - 3) // 2) + b"'\n")
+    # comments and directives of 4094 .. 10000 bytes, at top level and inside sections, as the last line
+    # with and without a final newline, and followed by more lines (the rest of an over-long line must
+    # not be taken for the next line; one physical line = one line number)
+    for n in (4094, 4095, 4096, 8190, 8191, 10000):
+        lines = [b"#" + b"c" * (n - 5) + b" a 1", b" \t# " + b" " * (n - 8) + b"</a>", b"a " + b"x" * (n - 2),
+                 b"a " + b"x " * ((n - 2) // 2), b"1 " + b" " * (n - 4) + b"on", b"<a " + b"1" * (n - 4) + b">",
+                 b"a \"" + b"q" * (n - 4) + b"\"", b" " * n, b"</a" + b" " * (n - 4) + b">"]
+        for ln in lines:
+            for pre, post in ((b"", b""), (b"<a s>\n", b"</a>\n"), (b"<a s>\n1 on\n<a t>\n", b"1 off\n</a>\n</a>\n")):
+                docs.append(pre + ln + b"\n" + post + b"a after\n")
+                docs.append(pre + ln + b"\n" + post)
+                docs.append(pre + ln)                      # end of file inside the line
     return docs
 
 
